@@ -21,7 +21,7 @@ REQUIRED_REACH = ["data_processing.py:from_nested_to_3d_numpy", "data_processing
                   "data_processing.py:from_nested_to_long", "data_processing.py:from_long_to_nested",
                   "data_processing.py:from_nested_to_2d_array", "data_processing.py:from_3d_numpy_to_2d_array",
                   "data_processing.py:from_2d_array_to_nested", "data_processing.py:is_nested_dataframe", "panel.py:check_X"]
-REQUIRED_MONITORS = ["path.values", "path.names", "predicate", "check_X"]
+REQUIRED_MONITORS = ["layout", "path.values", "path.names", "predicate", "check_X"]
 NOT_COVERED = ["unequal-length panels (outside the statement)", "paths longer than 3 conversions",
                "instance labels that are not in sorted order (the long table is keyed by identifiers; pivoting orders them like variables)"]
 ASSUMPTIONS = ["decoders in c15._decode follow each representation's documented layout"]
@@ -187,6 +187,18 @@ def run_case(case, ctx):
                 ctx.check("path.values", okv, "convert:values-differ:%s->%s" % (a, b),
                           "values/shape/order differ after %s" % "->".join(p2), path=p2, shape_got=list(got.shape),
                           shape_expected=list(E2.shape), first_got=got.ravel()[:6].tolist(), first_expected=E2.ravel()[:6].tolist())
+                if a == "np3d" and okv:
+                    # the same values in other memory layouts (Fortran order / a transposed recording / a strided view): values, not strides, define a panel
+                    big = np.zeros((obj.shape[0], obj.shape[1], 2 * obj.shape[2]))
+                    big[:, :, ::2] = obj
+                    for lname, v in (("fortran-order", np.asfortranarray(obj)), ("transposed-view", np.ascontiguousarray(obj.transpose(2, 1, 0)).T), ("strided-view", big[:, :, ::2])):
+                        try:
+                            gv, _ = _decode(b, f(v, n_arg))
+                            same = gv.shape == E2.shape and np.array_equal(gv, E2)
+                        except Exception as e:  # noqa
+                            same, gv = False, None
+                        ctx.check("layout", same, "convert:depends-on-memory-layout:%s->%s" % (a, b), "the conversion of a %s array differs from that of the same values in C order" % lname,
+                                  layout=lname, path=p2, first_got=None if gv is None else gv.ravel()[:6].tolist(), first_expected=E2.ravel()[:6].tolist())
                 if en2 is not None and gn is not None:
                     ctx.check("path.names", [str(c) for c in gn] == [str(c) for c in en2], "convert:names-differ:%s->%s" % (a, b),
                               "column names lost or reordered after %s" % "->".join(p2), got=[str(c) for c in gn], expected=[str(c) for c in en2], path=p2)
